@@ -9,7 +9,7 @@ import sys
 
 HERE = os.path.dirname(os.path.dirname(os.path.abspath(__file__)))
 EXTRA = {'C03_3': ['C05'], 'C03_4': ['C01'], 'C04_4': ['C03', 'C05'], 'C19_1': ['C01'], 'C19_2': ['C01'], 'C19_4': ['C03'],
-         'C05_1': ['C03'], 'C05_3': ['C03'], 'C05_4': ['C03', 'C04'], 'C10_7': ['C11'], 'C03_5': ['C07'], 'C05_6': ['C03'], 'C03_6': ['C05'], 'C04_5': ['C03', 'C05'], 'C04_7': ['C08'], 'C08_6': ['C16', 'C04'], 'C08_7': ['C04'], 'C08_5': ['C09']}
+         'C05_1': ['C03'], 'C05_3': ['C03'], 'C05_4': ['C03', 'C04'], 'C10_7': ['C11'], 'C03_5': ['C07'], 'C05_6': ['C03'], 'C03_6': ['C05'], 'C04_5': ['C03', 'C05'], 'C04_7': ['C08'], 'C08_6': ['C16', 'C04'], 'C08_7': ['C04'], 'C08_5': ['C09'], 'C04_6': ['C01', 'C02'], 'C17_3': ['C15']}
 
 
 def main():
